@@ -97,7 +97,14 @@ fn drive<S: Scenario>(prop: &str, sw: &Swarm, mut source: impl FnMut(&mut S, &mu
         }
         ops.push(op.clone());
         cx.rep.steps += 1;
-        match sc.step(&op, &mut cx) {
+        let trace = std::env::var_os("VERIF_TRACE").is_some();
+        let t0 = std::time::Instant::now();
+        let step_result = sc.step(&op, &mut cx);
+        if trace {
+            // development aid only; never enabled by a registered command (reads the real clock)
+            eprintln!("[{:>4}] {:>8.1}ms {} {}", i, t0.elapsed().as_secs_f64() * 1e3, op.kind.name(), op.sql.chars().take(200).collect::<String>());
+        }
+        match step_result {
             Step::Continue => {}
             Step::Violation(v) => {
                 violation = Some(v);
